@@ -21,7 +21,11 @@ from mc.core import Outcome
 PROPERTY = "C27"
 LEVEL = "exploration"
 RULE = (
-    "md-grids {single2d, frac2d, x2d, t2d, frac3d, simplex2d, nonmatching2d, mockchain(codim 1+2), mockwells(codim 2)}; "
+    "md-grids {single2d, frac2d, x2d, t2d, frac3d, simplex2d, nonmatching2d (non-nested mortar and secondary), "
+    "mortarfine2d / mortarcoarse2d (mortar nested-refined / coarsened w.r.t. both neighbours), secfine2d / seccoarse2d, "
+    "x2d_mortarfine (one of four interfaces refined), mockchain(codim 1+2), mockwells(codim 2)}; every MortarProjections "
+    "evaluation builds three operator objects and requests all eight projections twice on each, in the orders "
+    "int-first / avg-first / reversed; "
     "one case = (md-grid, operator kind, ordered list L of subdomains given to the operator); "
     "evaluations = (L, inner ordered list S of grids of L | ordered list I of interfaces, nd in 1..3); "
     "non-trivial = L or the inner list is not the md-grid order of all grids (permuted or partial); "
@@ -38,15 +42,16 @@ ASSUMPTIONS = [
 BOUNDS = {
     "quick": "subdomain lists: all ordered sub-lists of length <= 3 (plus empty, full md order, reversed); "
     "inner target lists <= 3; interface lists <= 2 (simplex2d: <= 1) plus empty/full/reversed; nd in {1,2,3}; "
-    "9 md-grids with 1-4 subdomains, 0-4 interfaces",
+    "14 md-grids with 1-4 subdomains, 0-4 interfaces; 3 request orders x 2 requests per operator object",
     "thorough": "subdomain lists <= 4, inner lists <= 3, interface lists <= 3 (simplex2d: <= 2); nd in {1,2,3}",
 }
 MIN_CLASSES = 6
 CHUNK = 8
 
-MDGS = ["single2d", "frac2d", "x2d", "t2d", "frac3d", "simplex2d", "nonmatching2d", "mockchain", "mockwells"]
-NSUB = {"single2d": 1, "frac2d": 2, "x2d": 4, "t2d": 4, "frac3d": 2, "simplex2d": 4, "nonmatching2d": 2, "mockchain": 4,
-        "mockwells": 4}
+MDGS = ["single2d", "frac2d", "x2d", "t2d", "frac3d", "simplex2d", "nonmatching2d", "mortarfine2d", "mortarcoarse2d",
+        "secfine2d", "seccoarse2d", "x2d_mortarfine", "mockchain", "mockwells"]
+NSUB = {"single2d": 1, "frac2d": 2, "x2d": 4, "t2d": 4, "frac3d": 2, "simplex2d": 4, "nonmatching2d": 2, "mortarfine2d": 2,
+        "mortarcoarse2d": 2, "secfine2d": 2, "seccoarse2d": 2, "x2d_mortarfine": 4, "mockchain": 4, "mockwells": 4}
 KINDS = ["sub", "mortar", "bnd"]
 
 
@@ -67,7 +72,7 @@ def cases(tier):
     for name in MDGS:
         for kind in KINDS:
             maxI = (2 if tier == "quick" else 3)
-            if name == "simplex2d":
+            if name in ("simplex2d", "t2d"):
                 maxI -= 1
             for L in ordered_sublists(NSUB[name], maxlen):
                 c = {"mdg": name, "kind": kind, "L": L, "maxlen": maxlen}
@@ -90,6 +95,28 @@ def _mdg(name):
             raise RuntimeError(f"harness: md-grid {name} has {len(mdg.subdomains())} subdomains")
         _CACHE[name] = mdg
     return _CACHE[name]
+
+
+def _mdg_digest(mdg):
+    """Bitwise digest of the interface projection matrices, boundary projections and grid
+    sizes (purity oracle: building / querying global operators must not change them)."""
+    import hashlib
+
+    h = hashlib.blake2b(digest_size=12)
+    for sd in mdg.subdomains():
+        h.update(repr((sd.dim, sd.num_cells, sd.num_faces)).encode())
+        h.update(sd.tags["domain_boundary_faces"].tobytes())
+    for intf in mdg.interfaces():
+        for nm in ("_primary_to_mortar_int", "_primary_to_mortar_avg", "_secondary_to_mortar_int",
+                   "_secondary_to_mortar_avg", "_mortar_to_primary_int", "_mortar_to_primary_avg",
+                   "_mortar_to_secondary_int", "_mortar_to_secondary_avg"):
+            M = getattr(intf, nm)
+            h.update(repr((nm, M.format, M.shape)).encode())
+            h.update(M.data.tobytes() + M.indices.tobytes() + M.indptr.tobytes())
+    for bg in mdg.boundaries():
+        M = bg._projections
+        h.update(M.data.tobytes() + M.indices.tobytes() + M.indptr.tobytes())
+    return h.hexdigest()
 
 
 def _dense(x):
@@ -231,8 +258,12 @@ def run_case(case) -> Outcome:
         ("mortar_to_secondary_int", False, False), ("mortar_to_secondary_avg", False, False),
         ("secondary_to_mortar_int", True, False), ("secondary_to_mortar_avg", True, False),
     ]
+    # request orders on one operator object: extensive first / intensive first / reversed
+    ORDERS = [("int-first", [0, 1, 2, 3, 4, 5, 6, 7]), ("avg-first", [1, 0, 3, 2, 5, 4, 7, 6]),
+              ("reversed", [7, 6, 5, 4, 3, 2, 1, 0])]
     pos_of = {id(g): p for p, g in enumerate(L)}
     offC, offF = _offsets(nc), _offsets(nf)
+    pure0 = _mdg_digest(mdg)
     for Ipos in ordered_sublists(len(intfs), case["maxI"]):
         I = [intfs[j] for j in Ipos]
         codims = sorted({m.codim for m in I})
@@ -242,17 +273,11 @@ def run_case(case) -> Outcome:
         for nd in (1, 2, 3):
             bad = None
             cls_extra = ""
+            conf = "conf"
             try:
-                mp = pp.ad.MortarProjections(mdg, L, I, nd)
-                conf = "conf" if (mp._is_conforming_primary and mp._is_conforming_secondary) else "nonconf"
+                # expected matrices from the list order and the per-interface blocks only
+                EXP = {}
                 for pname, to_mortar, is_primary in PROJ:
-                    try:
-                        got = _dense(getattr(mp, pname)())
-                    except ValueError as e:
-                        if len(codims) > 1 and "same codimension" in str(e):
-                            cls_extra = "rejected:mixed-codim"
-                            break
-                        raise
                     # (an empty interface list has no codimension: the operator sizes the
                     # primary side by faces)
                     use_faces = is_primary and (codims == [1] or not I)
@@ -261,23 +286,44 @@ def run_case(case) -> Outcome:
                     for j, m in enumerate(I):
                         prim, sec = mdg.interface_to_subdomain_pair(m)
                         g = prim if is_primary else sec
-                        if id(g) not in pos_of:
-                            continue
-                        p = pos_of[id(g)]
                         ck = (name, id(m), pname, nd)
                         if ck not in _BLOCKS:
                             _BLOCKS[ck] = _dense(getattr(m, pname)(nd))
                         loc = _BLOCKS[ck]
+                        if np.any((loc != 0) & (np.abs(loc - 1.0) > 1e-9)):
+                            conf = "nonconf"
+                        if id(g) not in pos_of:
+                            continue
+                        p = pos_of[id(g)]
                         if to_mortar:
                             loc = loc.T
                         # loc: (nd * entities of g) x (nd * mortar cells)
-                        if loc.shape != (nd * cnt[p], nd * nm[j]):
+                        if len(codims) == 1 and loc.shape != (nd * cnt[p], nd * nm[j]):
                             raise RuntimeError(f"harness: local block of {pname} has shape {loc.shape}")
-                        E[nd * off[p]: nd * off[p + 1], nd * offM[j]: nd * offM[j + 1]] = loc
-                    if to_mortar:
-                        E = E.T
-                    if not _same(got, E):
-                        bad = f"{pname} differs from the per-interface blocks placed at list-order offsets"
+                        if len(codims) == 1:
+                            E[nd * off[p]: nd * off[p + 1], nd * offM[j]: nd * offM[j + 1]] = loc
+                    EXP[pname] = E.T if to_mortar else E
+                # one fresh operator object per request order; on each object all eight
+                # projections are requested, then requested again (shared caches)
+                for oname, order in ORDERS:
+                    mp = pp.ad.MortarProjections(mdg, L, I, nd)
+                    for rnd in ("first", "repeated"):
+                        for k in order:
+                            pname = PROJ[k][0]
+                            try:
+                                got = _dense(getattr(mp, pname)())
+                            except ValueError as e:
+                                if len(codims) > 1 and "same codimension" in str(e):
+                                    cls_extra = "rejected:mixed-codim"
+                                    break
+                                raise
+                            if not _same(got, EXP[pname]):
+                                bad = (f"{pname} differs from the per-interface blocks placed at list-order "
+                                       f"offsets (request order '{oname}', {rnd} request on the same object)")
+                                break
+                        if bad or cls_extra:
+                            break
+                    if bad or cls_extra:
                         break
                 if bad is None and not cls_extra:
                     sg = _dense(mp.sign_of_mortar_sides())
@@ -299,6 +345,9 @@ def run_case(case) -> Outcome:
                 nontriv = shapeL != "md-order" or shapeI != "md-order"
                 out.ev(f"mortar/L:{shapeL}/I:{shapeI}/codim{codims}/{conf}",
                        (name, "m", tuple(Lpos), tuple(Ipos), nd) if nontriv else None)
+    if _mdg_digest(mdg) != pure0:
+        viol("MortarProjections modified the md-grid / interface matrices it was given")
+        out.ev("VIOLATION")
     if not out.samples and Lpos:
         out.samples.append({"mdg": name, "kind": kind, "L": Lpos, "interfaces": len(intfs)})
     return out
